@@ -150,6 +150,12 @@ func (w *vC13World) step(tag string) {
 			return
 		}
 		s := *w.data
+		if refC13Huge(idx) {
+			// beyond any possible slice length: RangeError, nothing changes (was a host panic, fixed)
+			vAssert(tag+":set-huge-RangeError", out.panicked && out.kind == "RangeError")
+			vAssert(tag+":set-huge-len", len(s) == oldLen)
+			return
+		}
 		if idx < 0 {
 			// not an index of a Go slice: rejected (TypeError in strict code), nothing changes
 			vAssert(tag+":set-negative-rejected", !res && out.panicked == throw && (!throw || out.kind == "TypeError"))
